@@ -176,6 +176,7 @@ type World struct {
 	passStartRep       map[string][2]string // pod name -> addresses the pod reported when the current reconcile began
 	passStartUID       map[string]string    // pod name -> uid, for the pods that existed when the current reconcile began
 	unboundAt          map[string]time.Time // pod|address -> when a status write took the binding away
+	firstOwner         map[string]string    // address -> uid of the pod a taken-over binding was set up for
 	reportLost         map[string]bool      // pod uid -> the agent restarted before its teardown report reached the runtime object
 	rtSeen             map[string]rtStamps  // pod uid -> newest CNI stamps the agent ever wrote to the runtime object
 	delComplete        map[string]bool      // pod uid -> the DEL of every sandbox of the pod returned success
@@ -239,7 +240,7 @@ func (ClusterWorld) Run(t *testing.T, scAny any, chooser simrt.Chooser, keepLog 
 	defer os.RemoveAll(dir)
 	res := kit.Execute(t, chooser, keepLog, 600_000, func(run *kit.Run) {
 		w := &World{run: run, sc: sc, cfg: &sc.Cfg, dir: dir, faultIdx: map[string]int{}, faultPlan: map[string]string{},
-			pendingInstance: map[string]string{}, pendingSince: map[string]int{}, everRecorded: map[string]bool{}, cniInFlight: map[string]int{}, addInFlight: map[string]int{}, suspectReport: map[string]bool{}, addFailed: map[string]bool{}, addOK: map[string]bool{}, delComplete: map[string]bool{}, rtSeen: map[string]rtStamps{}, unboundAt: map[string]time.Time{}, reportLost: map[string]bool{}, delProcessed: map[string]bool{}, trigger: make(chan struct{}, 1)}
+			pendingInstance: map[string]string{}, pendingSince: map[string]int{}, everRecorded: map[string]bool{}, cniInFlight: map[string]int{}, addInFlight: map[string]int{}, suspectReport: map[string]bool{}, addFailed: map[string]bool{}, addOK: map[string]bool{}, delComplete: map[string]bool{}, rtSeen: map[string]rtStamps{}, unboundAt: map[string]time.Time{}, firstOwner: map[string]string{}, reportLost: map[string]bool{}, delProcessed: map[string]bool{}, trigger: make(chan struct{}, 1)}
 		w.main()
 	})
 	closeDBs()
